@@ -100,10 +100,10 @@ def register_selection(reg):
 # ---- get_unstable: regions -> ids of exactly the indexed nodes under each region (C05 glue around search) -----------------------------
 NK = TupleT(INT, Key)
 GU_M = {
-    "rc": "lambda n: split_colon(regions[n])[0]",
-    "ra": "lambda n: int(split_dash(split_colon(regions[n])[1])[0])",
-    "rb": "lambda n: int(split_dash(split_colon(regions[n])[1])[len(split_dash(split_colon(regions[n])[1])) - 1])",
-    "hits": "lambda n, key: key in index and key[1] == split_colon(regions[n])[0] and key[2] <= rb(n) and ra(n) < key[3]",
+    "rc": "lambda n: rsplit_colon_1(regions[n])[0]",
+    "ra": "lambda n: int(split_dash(rsplit_colon_1(regions[n])[1])[0])",
+    "rb": "lambda n: int(split_dash(rsplit_colon_1(regions[n])[1])[len(split_dash(rsplit_colon_1(regions[n])[1])) - 1])",
+    "hits": "lambda n, key: key in index and key[1] == rsplit_colon_1(regions[n])[0] and key[2] <= rb(n) and ra(n) < key[3]",
     "wfl": "lambda L, c: forall(lambda j, k: implies(0 <= j < k < len(L), L[j][3] <= L[k][2])) and "
            "forall(lambda j: implies(0 <= j < len(L), L[j] in index and L[j][1] == c and 0 <= L[j][2] < L[j][3]))",
 }
@@ -113,13 +113,13 @@ def register_get_unstable(reg):
     reg.add(Contract(
         file=VIEW, func="get_unstable", variant="#body",
         params=dict(regions=ListT(STR), index=IndexT), returns=ListT(STR),
-        types=dict(KEY=Key, STR=STR, INT=INT), ufuns={"split_colon": ([STR], LINE), "split_dash": ([STR], LINE)},
+        types=dict(KEY=Key, STR=STR, INT=INT), ufuns={"rsplit_colon_1": ([STR], LINE), "split_dash": ([STR], LINE)},
         ghost=dict(cachepos=MapT(Key, INT), rn=MapT(INT, INT), rkey=MapT(INT, Key), rpos=MapT(NK, INT), sglo=INT, filter_pos=MapT(INT, INT), filter_inv=MapT(INT, INT),
                    sort_perm=MapT(INT, INT), sort_perm_inv=MapT(INT, INT)),
         locals=dict(node_dict=DictT(STR, ListT(Key)), result=ListT(STR), node_list=ListT(Key)),
         spec_funcs=GU_M, call_ghost={"search": {"glo": "sglo"}},
         requires=[
-            "forall(lambda n: implies(0 <= n < len(regions), len(split_colon(regions[n])) >= 2 and ra(n) >= 0))",
+            "forall(lambda n: implies(0 <= n < len(regions), len(rsplit_colon_1(regions[n])) >= 2 and ra(n) >= 0))",
             # a view index over a valid rGFA: intervals non-empty, distinct nodes of one contig are disjoint
             "forall(KEY, lambda k: implies(k in index, 0 <= k[2] < k[3]))",
             "forall([KEY, KEY], lambda k1, k2: implies(k1 in index and k2 in index and k1[1] == k2[1] and k1 != k2, k1[3] <= k2[2] or k2[3] <= k1[2]))",
